@@ -29,6 +29,8 @@ var WriterName = []string{"mem-file", "mem-bolt", "big"}
 
 // Safe runs f and converts a panic into an error carrying the stack.
 func Safe(f func() error) (err error) {
+	callEnter()
+	defer callExit()
 	defer func() {
 		if r := recover(); r != nil {
 			err = &PanicError{Val: r, Stack: string(debug.Stack())}
